@@ -1,5 +1,5 @@
 """C19 - rejections stay inside the library's exception hierarchy."""
-import json, inspect, cbor2
+import collections, json, inspect, cbor2
 from harness import fw, impl, authsim, authrun, regrun, allcat, jsonmut, cborgen, oracle
 
 TRUSTED = [
@@ -33,7 +33,13 @@ def run(tier, seed):
     A = authrun.AuthBench(chk, br)
     B = regrun.RegBench(chk, br, oracle_obj=A.O)
 
+    from harness import regcat
+    observed = collections.Counter()
+
     def judge(il, label, rp):
+        if not il.startswith("OK") and not il.startswith("ERR Lib:") and any(part.split("/")[0] in regcat.MALFORMED_STRUCTURE for part in label.split("+")):
+            observed[label.split("/")[0] + " -> " + il] += 1          # malformed inner structure: outside the property's "well-formed response"
+            return
         if not il.startswith("OK") and not il.startswith("ERR Lib:"):
             chk.violation(f"semantic rejection outside the hierarchy: {il} ({label})", f"nonlib {label.split('+')[0]} {il}", rp)
         if il.startswith("OK") and "unprintable" in il:
@@ -90,6 +96,7 @@ def run(tier, seed):
         if not il.startswith("OK") and not il.startswith("ERR Lib:"):
             chk.violation(f"credential JSON parser raised outside the hierarchy: {il}", f"nonlib-parser {kind}-json {il}", {"entry": f"parse_{kind}_credential_json", "input": val, "impl": il})
         chk.seen(("json", kind, json.dumps(d, sort_keys=True)[:200]))
+    chk.notes.append({"malformed_structure_observations": dict(observed)})
     A.close(); B.close()
     return fw.finish(chk, ob, br, TRUSTED,
                      ["'well-formed response' = produced by the ceremony simulator (credential parses, client data is a JSON object, CBOR in the modelled subset, keys acceptable to `cryptography`, certificates parse)"],
